@@ -85,6 +85,10 @@ def run(chk, repo):
     chk.doc("R27.3", "the error rows apply the configured safe state")
     chk.doc("R27.4", "reset")
     chk.doc("R27.5", "switch variables read as bools")
+    chk.doc("R27.6", "update() runs in every cycle of the slow group "
+                     "(shared with C30)")
+    from . import c30
+    c30.devices_updated(chk, repo, "R27.6")
     from . import c19
     chk.doc("R19.4", "the coil and the switches are read from and written "
                      "to the group's current frame on every access (shared "
